@@ -18,6 +18,9 @@ func pullWaitPub(sub, topic string, d time.Duration) model.Op {
 }
 func pullAbandon(sub string) model.Op { return model.Op{K: "pull", Sub: sub, Max: 10, Tgt: "abandon"} }
 func reconfig(sub, what string) model.Op { return model.Op{K: "reconfig", Sub: sub, Tgt: what} }
+func pubTie(topic string, keys ...string) model.Op {
+	return model.Op{K: "pub", Tgt: "tie", Topic: topic, Keys: keys, Attrs: make([]int, len(keys))}
+}
 func snap(sub, name string) model.Op     { return model.Op{K: "snap", Sub: sub, Name: name} }
 func seekS(sub, name string) model.Op    { return model.Op{K: "seekS", Sub: sub, Name: name} }
 func sweep() model.Op                    { return model.Op{K: "sweepDL", Max: 100} }
@@ -448,6 +451,22 @@ func init() {
 	histChecks["C13"] = func(tier string) []*hist.Scenario {
 		return []*hist.Scenario{
 			{
+				// publish times that are EQUAL (one batch on a coarse clock): the snapshot
+				// boundary sits on a time shared by an acknowledged and an unacknowledged message
+				ID: "C13/tied-publish-times", Prop: "C13", Depth: d(tier, 6, 7), Drain: true,
+				Cfg: model.Cfg{Topics: []string{"T0"}, Subs: []model.SubCfg{
+					{Name: "S0", Topic: "T0"},
+					{Name: "S1", Topic: "T0"},
+				}},
+				Prelude: []model.Op{pubTie("T0", "", ""), pub1("T0", "", 0)},
+				Alphabet: []model.Op{
+					pull("S0", 1), pull("S0", 10),
+					ack("S0", "oldest"), ack("S0", "newest"), ack("S0", "all"),
+					snap("S0", "N0"), seekS("S0", "N0"), seekS("S1", "N0"),
+					pubTie("T0", "", ""), tick("lease+"),
+				},
+			},
+			{
 				ID: "C13/siblings", Prop: "C13", Depth: d(tier, 6, 7), Drain: true,
 				Cfg: model.Cfg{Topics: []string{"T0", "T1"}, Subs: []model.SubCfg{
 					{Name: "S0", Topic: "T0"},
@@ -626,7 +645,7 @@ func init() {
 			pull("S0", 10), ack("S0", "all"), pull("SD", 10),
 			nack("S0", "all"), sweep(),
 			delSub("S0"), mkSub("S0"), delSub("SD"), delTopic("TD"), delTopic("T0"), mkTopic("T0"),
-			snap("S0", "N0"), snap("SD", "N1"),
+			snap("S0", "N0"), snap("SD", "N1"), seekS("S0", "N0"),
 			tick("lease+"), tick("+1h"), tick("ttl+"),
 		}, jobs(0, 100, model.JobNames...)...)
 		b = append(b, jobs(time.Hour, 1, "prune-deleted-subscription-deliveries", "prune-deleted-subscriptions", "prune-deleted-topics")...)
@@ -646,6 +665,19 @@ func init() {
 					{Name: "SD", Topic: "TD"},
 				}},
 				Alphabet: b,
+			},
+			{
+				// a name in use again while its deleted predecessor has not been reclaimed yet:
+				// every request by name must see the live row only, reclaimed or not
+				ID: "C15/reused-subscription-name", Prop: "C15", Depth: d(tier, 5, 6), Drain: true, Converge: true, Metamorphic: true, MetamorphicReverse: true,
+				Cfg: model.Cfg{Topics: []string{"T0"}, Subs: []model.SubCfg{
+					{Name: "S0", Topic: "T0"},
+				}},
+				Prelude: []model.Op{pub1("T0", "", 0), snap("S0", "N0"), delSub("S0"), mkSub("S0")},
+				Alphabet: append([]model.Op{
+					seekS("S0", "N0"), seekT("S0", "before-all"), pull("S0", 10), pub1("T0", "", 0), ack("S0", "all"), modack("S0", "all", 0),
+					snap("S0", "N0"), delSub("S0"), mkSub("S0"), get("sub", "S0"),
+				}, jobs(0, 100, "prune-deleted-subscription-deliveries", "prune-deleted-subscriptions", "prune-completed-deliveries", "prune-completed-messages")...),
 			},
 			{
 				// a deleted dead-letter topic that nothing but the policy refers to
